@@ -192,6 +192,8 @@ def bel_loco_case(n):
     claims = [
         Claim("battery_discharge_within_published_limit(+TOL)", lambda c: LT(c.post[P + "res.state.pwr_out_electrical"], almost_le_bound(c.post[P + "res.state.pwr_disch_max"]))),
         Claim("battery_charge_within_published_limit(+TOL)", lambda c: IMP(XLT(c.post[P + "res.state.pwr_out_electrical"], 0), GT(c.post[P + "res.state.pwr_out_electrical"], almost_ge_bound(-c.post[P + "res.state.pwr_charge_max"])))),
+        Claim("traction_plus_booked_aux_within_published_discharge_limit(+TOL)", lambda c: IMP(XGT(c.post[P + "edrv.state.pwr_elec_prop_in"], 0),
+              LT(c.post[P + "edrv.state.pwr_elec_prop_in"] + c.post["state.pwr_aux"], almost_le_bound(c.post[P + "res.state.pwr_disch_max"]))), role="traction_within_published_battery_limit"),
         Claim("drivetrain_within_rating", lambda c: LE(c.post[P + "edrv.state.pwr_mech_prop_out"], c.pre[P + "edrv.pwr_out_max"])),
         Claim("regen_within_published_regen_limit", lambda c: GE(c.post[P + "edrv.state.pwr_mech_prop_out"], -c.post["state.pwr_regen_max"])),
         Claim("published_loco_limit_within_drivetrain_rating", lambda c: LE(c.post["state.pwr_out_max"], c.pre[P + "edrv.pwr_out_max"])),
